@@ -11,6 +11,7 @@ Clause(r) ==
   CASE r.op = "categorize" -> CategorizeClause(r.inp, r.classes, r.out)
     [] r.op = "tag"        -> TagClause(r.inp, r.classes, r.out)
     [] r.op = "frame"      -> FrameClause(r.inp, r.out, SeqSet(r.added))
+    [] r.op = "raised"     -> "transform-raised"
     [] OTHER               -> "unknown-record"
 Init == tid \in 1..Len(Traces) /\ l = 1
 Next == l <= Len(T) /\ l' = l + 1 /\ UNCHANGED tid
